@@ -30,7 +30,7 @@ func init() {
 }
 
 var noRoundTrip = map[string]bool{"seed:SeedFolderV": true, "seed:SeedFolderP": true, "seed:SeedHolder": true, "seed:SeedInlineFolderV": true,
-	"seed:SeedInlineFolderP": true, "seed:SeedInlineIfc": true, "seed:SeedCustomHolder": true, "seed:SeedTags": true, "seed:SeedBuiltinFolders": true, "seed:SeedShapedFolders": true, "seed:SeedInlineNested": true, "seed:SeedFolderIfc": true, "seed:SeedInlineTypedNil": true}
+	"seed:SeedInlineFolderP": true, "seed:SeedInlineIfc": true, "seed:SeedCustomHolder": true, "seed:SeedTags": true, "seed:SeedBuiltinFolders": true, "seed:SeedShapedFolders": true, "seed:SeedInlineNested": true, "seed:SeedFolderIfc": true, "seed:SeedInlineTypedNil": true, "seed:SeedShapeFolder": true}
 
 var routeNames = [...]string{"direct", "json", "ubjson", "cborl"}
 
